@@ -52,6 +52,7 @@ type Session struct {
 	timeout  int // ms per check in live session
 	nchecks  int
 	dry      bool // no solver: used for the path-counting pre-pass
+	scoped   bool
 }
 
 func NewDrySession() *Session {
@@ -257,6 +258,31 @@ func (s *Session) CheckNot(goal string, getValues []string) (string, int64, stri
 func (s *Session) CheckSat() string { return s.CheckSatT(0) }
 
 // CheckSatT: satisfiability of the current stack with a temporary timeout.
+// ProbeStandalone: satisfiability of the current stack decided by a separate solver process, so that the live
+// session (whose later answers depend on its history) is not disturbed. "sat" | "unsat" | "unknown".
+func (s *Session) ProbeStandalone(ms int) string {
+	if s.dry {
+		return "sat"
+	}
+	n := atomic.AddInt64(&scratchCounter, 1)
+	f := filepath.Join(scratchDir(), fmt.Sprintf("probe%d.smt2", n))
+	os.WriteFile(f, []byte(s.Dump()+"(check-sat)\n"), 0o644)
+	defer os.Remove(f)
+	out, _ := exec.Command("z3-new", fmt.Sprintf("-t:%d", ms), f).Output()
+	first := strings.TrimSpace(strings.SplitN(string(out), "\n", 2)[0])
+	if first == "sat" || first == "unsat" {
+		return first
+	}
+	return "unknown"
+}
+
+// CheckSatScoped: CheckSatT inside a push/pop of its own.
+func (s *Session) CheckSatScoped(ms int) string {
+	s.scoped = true
+	defer func() { s.scoped = false }()
+	return s.CheckSatT(ms)
+}
+
 func (s *Session) CheckSatT(ms int) string {
 	if s.dry {
 		return "sat"
@@ -265,7 +291,10 @@ func (s *Session) CheckSatT(ms int) string {
 		return "unknown"
 	}
 	t0 := time.Now()
-	if ms > 0 {
+	if ms > 0 && s.scoped {
+		// inside its own scope, so that nothing the solver derives during the probe outlives it
+		fmt.Fprintf(s.in, "(push 1)\n(set-option :timeout %d)\n(check-sat)\n(set-option :timeout %d)\n(pop 1)\n", ms, s.timeout)
+	} else if ms > 0 {
 		fmt.Fprintf(s.in, "(set-option :timeout %d)\n(check-sat)\n(set-option :timeout %d)\n", ms, s.timeout)
 	} else {
 		io.WriteString(s.in, "(check-sat)\n")
